@@ -91,3 +91,36 @@ Definition tables_max_ok (c : cfg) (o : out) : bool :=
   forallb (fun t => Z.of_nat (length t) <=? c_max c) (o_seqs o).
 
 Definition limits_ok (c : cfg) (o : out) : bool := segments_ok o && tables_ok c o.
+
+(* ------------------------------------------------------------------------------------------------------------- *)
+(* The same specification, arranged for evaluation: the codes / marker booleans of every waveform of the table are
+   computed ONCE (at most length tbl pieces) and the played program concatenates them.  Used by Corr.check_spec only
+   because it is cheaper to evaluate (the quantisation is exact rational arithmetic per sample);
+   Props.C16_spec_cached_eq: spec_cached = spec for every input.  Markers are still every second sample of the WHOLE
+   concatenation (not of the pieces). *)
+Definition piece_codes (tbl : list wfdata) (ch : option Z) (amp off : Q) (tr : Q * Q) (w : nat) : option (list Z) :=
+  opt_bind (src_samples tbl ch 0 w) (quantise_channel ch amp off tr).
+
+Definition piece_marks (tbl : list wfdata) (m : option Z) (w : nat) : option (list bool) :=
+  opt_bind (src_samples tbl m 0 w) (fun vs => Some (map nonzero vs)).
+
+Definition cache_of {A} (f : nat -> option A) (n : nat) : list (option A) := map f (seq 0 n).
+Definition lookup {A} (l : list (option A)) (w : nat) : option A :=
+  match nth_error l w with Some x => x | None => None end.
+
+Definition amp_ok (ch : option Z) (amp : Q) : bool :=
+  match ch with None => true | Some _ => negb (Qle_bool amp 0) end.
+
+Definition spec_cached (c : cfg) (tbl : list wfdata) (prog : loop) : option streams :=
+  let played := flatten prog in
+  let n := length tbl in
+  let ca := cache_of (piece_codes tbl (c_cha c) (c_amp_a c) (c_off_a c) (c_tr_a c)) n in
+  let cb := cache_of (piece_codes tbl (c_chb c) (c_amp_b c) (c_off_b c) (c_tr_b c)) n in
+  let cma := cache_of (piece_marks tbl (c_ma c)) n in
+  let cmb := cache_of (piece_marks tbl (c_mb c)) n in
+  if negb (amp_ok (c_cha c) (c_amp_a c) && amp_ok (c_chb c) (c_amp_b c)) then None else
+  opt_bind (opt_concat (map (lookup ca) played)) (fun a =>
+  opt_bind (opt_concat (map (lookup cb) played)) (fun b =>
+  opt_bind (opt_concat (map (lookup cma) played)) (fun ma =>
+  opt_bind (opt_concat (map (lookup cmb) played)) (fun mb =>
+  Some {| s_a := a; s_b := b; s_ma := evens ma; s_mb := evens mb |})))).
